@@ -592,3 +592,25 @@ func J(v interface{}) string {
 	b, _ := json.Marshal(v)
 	return string(b)
 }
+
+// Norm replaces digit runs and hex blobs by '#', to make failure classes out of failure texts.
+func Norm(s string, max int) string {
+	var sb strings.Builder
+	prev := false
+	for _, c := range s {
+		if c >= '0' && c <= '9' {
+			if !prev {
+				sb.WriteByte('#')
+			}
+			prev = true
+			continue
+		}
+		prev = false
+		sb.WriteRune(c)
+	}
+	t := sb.String()
+	if len(t) > max {
+		t = t[:max]
+	}
+	return t
+}
